@@ -32,6 +32,9 @@ pub enum FileCase {
     BedLongSpans { variant: u32, opts: Opts },
     /// 16-base chromosomes with entries that start inside and end beyond the chromosome end
     BedBeyondEnd { lay: u32, opts: Opts },
+    /// 1 000 one-base values 6 000 bases apart at the start of a chromosome of 4 * 10^9 bases (the
+    /// automatic zoom list runs to the end of its candidate table), and the u32-limit chromosomes
+    WigHugeSparse { opts: Opts },
     /// sparse data at one scale, dense at the next: variant 0 = 2 100 one-base items 1 000 bases
     /// apart, variant 1 = 1 500 clusters of 20 adjacent values 1 000 bases apart (automatic zoom
     /// levels are then kept, dropped and kept again)
@@ -57,6 +60,9 @@ pub enum FileCase {
     /// alignment
     BedBigText { shift: u32, opts: Opts },
     WigBigText { shift: u32, opts: Opts },
+    /// two chromosomes of 40 entries; three entries in the middle of the first carry 150 000 bytes of
+    /// hardly compressible text (sections of 64 KiB and more that follow smaller sections)
+    BedBigLater { opts: Opts },
     /// one chromosome, three entries, the first with a `rest` of exactly `len` bytes
     BedLongRest { len: u32, opts: Opts },
     /// one chromosome, two entries, a supplied autoSql of exactly `len` bytes
@@ -236,6 +242,12 @@ pub fn expand(c: &FileCase) -> FileCase {
                 opts: opts.clone(),
             })
         }
+        FileCase::WigHugeSparse { opts } => FileCase::Wig(WigCase {
+            chroms: vec![WChrom { name: "hs".into(), len: 4_000_000_000, items: (0..1000u32).map(|i| WItem { s: 6000 * i, e: 6000 * i + 1, vb: ((i % 7) as f32 + 1.0).to_bits() }).collect() }],
+            extra_sizes: vec![],
+            allow_ooo: false,
+            opts: opts.clone(),
+        }),
         FileCase::WigSparse { variant, opts } => {
             let mut items = vec![];
             if *variant == 0 {
@@ -393,6 +405,37 @@ pub fn expand(c: &FileCase) -> FileCase {
             allow_ooo: false,
             opts: opts.clone(),
         }),
+        FileCase::BedBigLater { opts } => {
+            let noise = |seed: u64, n: usize| -> String {
+                let mut x = seed.wrapping_mul(0x9e3779b97f4a7c15) | 1;
+                (0..n)
+                    .map(|_| {
+                        x ^= x << 13;
+                        x ^= x >> 7;
+                        x ^= x << 17;
+                        (b'!' + (x % 90) as u8) as char
+                    })
+                    .map(|c| if c == '\t' { '_' } else { c })
+                    .collect()
+            };
+            FileCase::Bed(BedCase {
+                chroms: ["q1", "q2"]
+                    .iter()
+                    .enumerate()
+                    .map(|(ci, name)| BChrom {
+                        name: name.to_string(),
+                        len: 1000,
+                        items: (0..40u32)
+                            .map(|i| BItem { s: 5 * i, e: 5 * i + 7, rest: if ci == 0 && [10, 20, 30].contains(&i) { noise(i as u64 + 1, 150_000) } else { format!("r{}_{}", ci, i) } })
+                            .collect(),
+                    })
+                    .collect(),
+                extra_sizes: vec![],
+                allow_ooo: false,
+                autosql: None,
+                opts: opts.clone(),
+            })
+        }
         FileCase::BedLongRest { len, opts } => FileCase::Bed(BedCase {
             chroms: vec![BChrom {
                 name: "c".into(),
@@ -897,6 +940,25 @@ pub fn bed_family(tier: Tier) -> Box<dyn Iterator<Item = FileCase>> {
             .chain(uneven_cases(true).into_iter())
             .chain(names_cases(true).into_iter())
             .chain(longrest.into_iter())
+            .chain({
+                let mut v = vec![];
+                for ips in [4u32, 64] {
+                    for compress in [true, false] {
+                        for two_pass in [false, true] {
+                            for inmemory in [true, false] {
+                                let mut o = Opts::base();
+                                o.ips = ips;
+                                o.compress = compress;
+                                o.two_pass = two_pass;
+                                o.inmemory = inmemory;
+                                o.zoom = Zoom::Manual(vec![16]);
+                                v.push(FileCase::BedBigLater { opts: o });
+                            }
+                        }
+                    }
+                }
+                v.into_iter()
+            })
             .chain(many_zoom_cases(true).into_iter())
             .chain(big_text_cases(true).into_iter()),
     )
@@ -1928,6 +1990,70 @@ pub fn oracle_c07(c: &WigCase, bytes: &[u8], all_ranges: bool, out: &mut Outcome
     }
 }
 
+/// Zoom oracle without per-base arrays (chromosomes of 10^9 bases): levels strictly increasing;
+/// per level and chromosome the records are ordered, disjoint and no longer than the resolution;
+/// every record's covered count, sum, minimum and maximum equal those of the stored values clipped
+/// to its span, and every stored base lies in a record.
+pub fn oracle_c07_items(c: &WigCase, bytes: &[u8], out: &mut Outcome) {
+    let tags = wig_tags(c);
+    let r = guarded(|| {
+        let mut r = match BigWigRead::open(Cursor::new(bytes.to_vec())) {
+            Ok(r) => r,
+            Err(e) => {
+                out.fail("open_failed", &tags, format!("{}", e));
+                return;
+            }
+        };
+        let levels: Vec<u32> = r.info().zoom_headers.iter().map(|z| z.reduction_level).collect();
+        out.count("files_with_zoom_levels_read", (!levels.is_empty()) as u64);
+        if levels.windows(2).any(|w| w[1] <= w[0]) {
+            out.fail("zoom_levels_not_increasing", &tags, format!("zoom resolutions {:?}", levels));
+        }
+        for &res in &levels {
+            for ch in &c.chroms {
+                let recs: Vec<bigtools::ZoomRecord> = match r.get_zoom_interval(&ch.name, 0, ch.len, res).map_err(|e| format!("{}", e)).and_then(|it| it.collect::<Result<Vec<_>, _>>().map_err(|e| format!("{}", e))) {
+                    Ok(v) => v,
+                    Err(e) => {
+                        out.fail("zoom_read_error", &tags, format!("{} res {}: {}", ch.name, res, e));
+                        continue;
+                    }
+                };
+                out.count("zoom_records_checked", recs.len() as u64);
+                let mut covered_total = 0u64;
+                for (k, z) in recs.iter().enumerate() {
+                    if z.end <= z.start || z.end - z.start > res || (k > 0 && z.start < recs[k - 1].end) {
+                        out.fail("zoom_too_long", &tags, format!("{} res {}: record {} [{},{}) is empty, longer than the resolution or overlaps its predecessor", ch.name, res, k, z.start, z.end));
+                        break;
+                    }
+                    let (mut n, mut sum, mut mn, mut mx) = (0u64, 0f64, f64::INFINITY, f64::NEG_INFINITY);
+                    for it in &ch.items {
+                        let (a, b) = (it.s.max(z.start), it.e.min(z.end));
+                        if b > a {
+                            n += (b - a) as u64;
+                            sum += (b - a) as f64 * it.v() as f64;
+                            mn = mn.min(it.v() as f64);
+                            mx = mx.max(it.v() as f64);
+                        }
+                    }
+                    covered_total += n;
+                    let close = |a: f64, b: f64| (a - b).abs() <= 1e-5 * b.abs().max(1.0);
+                    if z.summary.bases_covered != n || !close(z.summary.sum, sum) || (n > 0 && (!close(z.summary.min_val, mn) || !close(z.summary.max_val, mx))) {
+                        out.fail("zoom_stats", &tags, format!("{} res {}: record {} [{},{}) covered {} sum {} min {} max {}, data gives {} / {} / {} / {}", ch.name, res, k, z.start, z.end, z.summary.bases_covered, z.summary.sum, z.summary.min_val, z.summary.max_val, n, sum, mn, mx));
+                        break;
+                    }
+                }
+                let want: u64 = ch.items.iter().map(|i| (i.e - i.s) as u64).sum();
+                if covered_total != want {
+                    out.fail("zoom_base_coverage", &tags, format!("{} res {}: records cover {} stored bases, the data has {}", ch.name, res, covered_total, want));
+                }
+            }
+        }
+    });
+    if let Err(p) = r {
+        out.fail("read_panicked", &tags, p);
+    }
+}
+
 pub fn oracle_c08(c: &BedCase, bytes: &[u8], all_ranges: bool, out: &mut Outcome) {
     let tags = bed_tags(c);
     let r = guarded(|| {
@@ -2027,12 +2153,35 @@ impl Check for C07 {
     fn cases(&self, tier: Tier) -> Box<dyn Iterator<Item = FileCase> + '_> {
         // + chromosomes of 100 000 / 50 / 7 bases with sparse data (automatic zoom lists keep and drop
         // levels there as they never do on 16-base chromosomes)
-        Box::new(wig_zoom_family(tier).chain(uneven_cases(false).into_iter()).chain(mid_cases(false).into_iter()).chain(sparse_cases(false).into_iter()))
+        Box::new(wig_zoom_family(tier).chain(uneven_cases(false).into_iter()).chain(mid_cases(false).into_iter()).chain(sparse_cases(false).into_iter()).chain({
+            let mut v = vec![];
+            for two_pass in [false, true] {
+                for compress in [true, false] {
+                    for zoom in [Zoom::AutoDefault, Zoom::Manual(vec![1 << 20, 1 << 26])] {
+                        let mut o = Opts::base();
+                        o.two_pass = two_pass;
+                        o.compress = compress;
+                        o.zoom = zoom;
+                        v.push(FileCase::WigHugeSparse { opts: o.clone() });
+                        v.push(FileCase::WigHuge { opts: o });
+                    }
+                }
+            }
+            v.into_iter()
+        }))
     }
     fn run(&self, case: &FileCase, out: &mut Outcome) {
         let FileCase::Wig(c) = expand(case) else { return };
         let _cap = case_sink(case, out);
         let Some(bytes) = do_write_wig(&c, out) else { return };
+        if matches!(case, FileCase::WigHugeSparse { .. } | FileCase::WigHuge { .. }) {
+            // chromosomes of 10^9 bases: the oracle works from the items, not from per-base arrays
+            out.nontrivial = true;
+            out.count("files_with_coordinates_up_to_u32_max", 1);
+            structure(&bytes, c.chroms.len(), out);
+            oracle_c07_items(&c, &bytes, out);
+            return;
+        }
         let dec = structure(&bytes, c.chroms.len(), out);
         gap_features_wig(&c, out);
         out.nontrivial = dec.as_ref().map(|d| !d.zooms.is_empty()).unwrap_or(false)
